@@ -231,3 +231,191 @@ func VerifHarness_C03_O4() {
 	verifAssert(fmt.Sprintf("consensus-output-independent-of-batching/dag%d", k), same)
 	verifReach("end")
 }
+
+// O5 — insertion-order independence and the prefix rule on gossip-shaped DAGs.
+// A DAG over n creators is generated by a fixed pull pattern (creator `to`
+// creates an event on top of its head and `from`'s head) in which one exchange
+// (symbolic schedule bit) may be missing.  The reference hashgraph inserts the
+// events in creation order; a second one inserts the SAME events in another
+// topological order: either always the ready event of the creator that comes
+// first in a chosen priority permutation (all n! permutations; the last
+// creator's events arrive as late as possible), or the most recently created
+// ready event.  Both run a consensus pass after every insert, as production
+// does; its cache size is the reference's or just above the number of events.
+// At every moment the blocks of the second are a prefix of the
+// reference's final blocks; at the end round, witness flag, Lamport timestamp
+// and round-received of every event and all blocks coincide.
+type verifGossipEv struct {
+	creator, index, sp, op int
+	ev                     *Event
+}
+
+func verifGossipDAG(vn *verifNet, n, steps int, skip int) []*verifGossipEv {
+	var dag []*verifGossipEv
+	head := make([]int, n)
+	for c := 0; c < n; c++ {
+		head[c] = len(dag)
+		dag = append(dag, &verifGossipEv{creator: c, index: 0, sp: -1, op: -1})
+	}
+	for st := 0; st < steps; st++ {
+		to := st % n
+		from := to
+		if n > 1 {
+			from = (to + 1 + (st/n)%(n-1)) % n
+		}
+		if st == skip {
+			continue
+		}
+		e := &verifGossipEv{creator: to, index: dag[head[to]].index + 1, sp: head[to], op: head[from]}
+		if n == 1 {
+			e.op = -1
+		}
+		head[to] = len(dag)
+		dag = append(dag, e)
+	}
+	for i, e := range dag {
+		sp, op := "", ""
+		if e.sp >= 0 {
+			sp = dag[e.sp].ev.Hex()
+		}
+		if e.op >= 0 {
+			op = dag[e.op].ev.Hex()
+		}
+		e.ev = vn.mkEvent(e.creator, sp, op, e.index, [][]byte{{byte(i)}})
+	}
+	return dag
+}
+
+// a fresh copy of an event as it would arrive from the wire (no memoised
+// consensus attributes of another hashgraph)
+func verifFreshEvent(vn *verifNet, e *verifGossipEv, dag []*verifGossipEv, i int) *Event {
+	// same body, same signature (signing again would give another signature:
+	// ECDSA is randomised, and the frame hash covers signatures)
+	return &Event{Body: EventBody{
+		Transactions:         e.ev.Body.Transactions,
+		InternalTransactions: e.ev.Body.InternalTransactions,
+		Parents:              append([]string{}, e.ev.Body.Parents...),
+		Creator:              e.ev.Body.Creator,
+		Index:                e.ev.Body.Index,
+		BlockSignatures:      e.ev.Body.BlockSignatures,
+		Timestamp:            e.ev.Body.Timestamp,
+	}, Signature: e.ev.Signature}
+}
+
+func verifSameBlock(x, y *Block) bool {
+	same := x.Index() == y.Index() && x.RoundReceived() == y.RoundReceived() && x.Timestamp() == y.Timestamp() &&
+		string(x.FrameHash()) == string(y.FrameHash()) && string(x.PeersHash()) == string(y.PeersHash()) &&
+		len(x.Transactions()) == len(y.Transactions())
+	if same {
+		for t := range x.Transactions() {
+			if string(x.Transactions()[t]) != string(y.Transactions()[t]) {
+				same = false
+			}
+		}
+	}
+	return same
+}
+
+func VerifHarness_C03_O5() {
+	n, steps := 3, 45
+	if verifTier() > 0 && verifChoice("validators", 2) == 1 {
+		n, steps = 4, 72
+	}
+	skip := -1
+	for st := 3; st < 15; st++ {
+		if skip < 0 && verifNondetBool(fmt.Sprintf("missing%d", st)) {
+			skip = st
+		}
+	}
+	ref := verifNewNet(n, 1000)
+	dag := verifGossipDAG(ref, n, steps, skip)
+	for i, e := range dag {
+		if err := ref.insertAndRun(verifFreshEvent(ref, e, dag, i)); err != nil {
+			panic(fmt.Sprintf("reference insert %d: %v", i, err))
+		}
+	}
+	// the other order
+	nperm := 1
+	for i := 2; i <= n; i++ {
+		nperm *= i
+	}
+	pol := verifChoice("order", nperm+1)
+	prio := make([]int, n) // prio[c]: rank of creator c (0 = first)
+	if pol < nperm {
+		pool := []int{}
+		for c := 0; c < n; c++ {
+			pool = append(pool, c)
+		}
+		idx, f := pol, nperm
+		for i := n; i >= 1; i-- {
+			f /= i
+			j := idx / f
+			idx %= f
+			prio[pool[j]] = n - i
+			pool = append(pool[:j], pool[j+1:]...)
+		}
+	}
+	// cache size: the default-like 1000, or just above the number of events (the
+	// in-memory store forgets evicted events for good, so smaller sizes are
+	// outside the supported range)
+	cache := []int{1000, len(dag) + 2}[verifChoice("cacheSize", 2)]
+	alt := verifNewNet(n, cache)
+	done := make([]bool, len(dag))
+	for cnt := 0; cnt < len(dag); cnt++ {
+		best := -1
+		for i, e := range dag {
+			if done[i] || (e.sp >= 0 && !done[e.sp]) || (e.op >= 0 && !done[e.op]) {
+				continue
+			}
+			if best < 0 {
+				best = i
+			} else if pol == nperm {
+				best = i // most recently created ready event
+			} else if prio[e.creator] < prio[dag[best].creator] {
+				best = i
+			}
+		}
+		done[best] = true
+		if err := alt.insertAndRun(verifFreshEvent(alt, dag[best], dag, best)); err != nil {
+			panic(fmt.Sprintf("insert %d in the other order: %v", best, err))
+		}
+		// a downward-closed subset yields a prefix of the full output
+		verifAssert("subset-blocks-are-a-prefix-of-the-full-output", len(alt.blocks) <= len(ref.blocks))
+		if k := len(alt.blocks); k > 0 && k <= len(ref.blocks) {
+			verifAssert("subset-blocks-are-a-prefix-of-the-full-output", verifSameBlock(alt.blocks[k-1], ref.blocks[k-1]))
+		}
+	}
+	verifAssert("same-number-of-blocks-whatever-the-insertion-order", len(alt.blocks) == len(ref.blocks))
+	for i, e := range dag {
+		x := e.ev.Hex()
+		r1, _ := ref.h.round(x)
+		r2, _ := alt.h.round(x)
+		w1, _ := ref.h.witness(x)
+		w2, _ := alt.h.witness(x)
+		l1, _ := ref.h.lamportTimestamp(x)
+		l2, _ := alt.h.lamportTimestamp(x)
+		rr1, _ := ref.h.roundReceived(x)
+		rr2, _ := alt.h.roundReceived(x)
+		verifAssert("round-independent-of-insertion-order", r1 == r2)
+		verifAssert("witness-flag-independent-of-insertion-order", w1 == w2)
+		verifAssert("lamport-timestamp-independent-of-insertion-order", l1 == l2)
+		verifAssert("round-received-independent-of-insertion-order", rr1 == rr2)
+		_ = i
+	}
+	for r := 0; r <= ref.store.LastRound(); r++ {
+		a, err1 := ref.store.GetRound(r)
+		b, err2 := alt.store.GetRound(r)
+		if err1 != nil || err2 != nil {
+			verifAssert("same-rounds-exist-whatever-the-insertion-order", (err1 != nil) == (err2 != nil))
+			continue
+		}
+		for _, w := range a.Witnesses() {
+			verifAssert("fame-independent-of-insertion-order", a.CreatedEvents[w].Famous == b.CreatedEvents[w].Famous)
+		}
+	}
+	if len(ref.blocks) >= 3 {
+		verifReach("several-blocks-committed")
+	}
+	verifObserve("blocks", len(ref.blocks))
+	verifReach("end")
+}
